@@ -142,6 +142,8 @@ ImmMags == { Mag8(<<0,0,0,0>>, Z4), Mag8(<<1,0,0,0>>, Z4), Mag8(<<127,0,0,0>>, Z
              Mag8(Z4, <<1,0,0,0>>), Mag8(<<255,255,255,255>>, <<255,255,255,127>>), Mag8(Z4, <<0,0,0,128>>),
              Mag8(<<255,255,255,255>>, <<255,255,255,255>>),
              Mag8(<<120,86,52,18>>, Z4), Mag8(<<240,222,188,154>>, <<120,86,52,18>>), Mag8(<<17,34,51,68>>, <<85,102,119,8>>),
+             Mag8(<<128,255,255,255>>, Z4), Mag8(<<127,255,255,255>>, Z4), Mag8(<<254,255,255,255>>, Z4), Mag8(<<129,255,255,255>>, Z4),
+             Mag8(<<128,255,0,0>>, Z4), Mag8(<<127,255,0,0>>, Z4), Mag8(<<254,255,0,0>>, Z4), Mag8(<<254,0,0,0>>, Z4), Mag8(<<0,128,255,255>>, Z4),
              Mag8(<<66,0,0,0>>, Z4), Mag8(<<57,48,0,0>>, Z4), Mag8(<<177,104,222,58>>, Z4), Mag8(<<21,205,91,7>>, <<0,0,0,0>>),
              Mag8(<<239,190,173,222>>, Z4), Mag8(<<190,186,254,202>>, <<239,190,173,222>>) }
 ImmVals == { Im(n, m, r, 0) : n \in BOOLEAN, m \in ImmMags, r \in {"hex", "dec"} }
@@ -257,6 +259,23 @@ C10_Regs(zz) ==
 \cup { Raw("misspelt-register", <<"vpaddb", " ", "ymm1", ",", " ", b, ",", " ", "ymm2">>) : b \in BadRegs }
 \cup { Raw("misspelt-register", <<"push", " ", b>>) : b \in BadRegs }
 \cup { Raw("misspelt-register", <<"paddb", " ", "xmm1", ",", " ", b>>) : b \in BadRegs }
+\* a misspelt register at every operand position of 1- to 4-operand forms, as register and inside a memory expression
+RegTemplates == { <<"inc", " ", "@">>, <<"push", " ", "@">>, <<"add", " ", "@", ",", " ", "rcx">>, <<"add", " ", "rcx", ",", " ", "@">>,
+                  <<"add", " ", "rcx", ",", " ", "[", "@", "]">>, <<"add", " ", "[", "rax", "+", "@", "]", ",", " ", "rcx">>,
+                  <<"shld", " ", "@", ",", " ", "rbx", ",", " ", "cl">>, <<"shld", " ", "rax", ",", " ", "@", ",", " ", "cl">>, <<"shld", " ", "rax", ",", " ", "rbx", ",", " ", "@">>,
+                  <<"shlx", " ", "@", ",", " ", "rbx", ",", " ", "rcx">>, <<"shlx", " ", "rax", ",", " ", "@", ",", " ", "rcx">>, <<"shlx", " ", "rax", ",", " ", "rbx", ",", " ", "@">>,
+                  <<"shlx", " ", "rax", ",", " ", "[", "@", "]", ",", " ", "rcx">>, <<"mulx", " ", "rax", ",", " ", "rbx", ",", " ", "@">>,
+                  <<"mulx", " ", "rax", ",", " ", "rbx", ",", " ", "[", "rax", "+", "@", "*", "4", "]">>, <<"mulx", " ", "rax", ",", " ", "rbx", ",", " ", "[", "@", "+", "rcx", "]">>,
+                  <<"imul", " ", "rax", ",", " ", "@", ",", " ", "0x5">>, <<"imul", " ", "@", ",", " ", "rbx", ",", " ", "0x5">>, <<"rorx", " ", "rax", ",", " ", "@", ",", " ", "0x5">>,
+                  <<"vpaddb", " ", "@", ",", " ", "ymm2", ",", " ", "ymm3">>, <<"vpaddb", " ", "ymm1", ",", " ", "@", ",", " ", "ymm3">>, <<"vpaddb", " ", "ymm1", ",", " ", "ymm2", ",", " ", "@">>,
+                  <<"vpaddb", " ", "ymm1", ",", " ", "ymm2", ",", " ", "[", "@", "]">>, <<"vpaddb", " ", "xmm1", ",", " ", "xmm2", ",", " ", "@">>,
+                  <<"vperm2i128", " ", "ymm1", ",", " ", "ymm2", ",", " ", "@", ",", " ", "0x5">>, <<"vperm2i128", " ", "ymm1", ",", " ", "@", ",", " ", "ymm3", ",", " ", "0x5">>,
+                  <<"vperm2i128", " ", "@", ",", " ", "ymm2", ",", " ", "ymm3", ",", " ", "0x5">>, <<"vperm2i128", " ", "ymm1", ",", " ", "ymm2", ",", " ", "[", "rax", "+", "@", "]", ",", " ", "0x5">>,
+                  <<"paddb", " ", "xmm1", ",", " ", "@">>, <<"paddb", " ", "@", ",", " ", "xmm1">>, <<"movq", " ", "xmm1", ",", " ", "@">>, <<"bzhi", " ", "rax", ",", " ", "rbx", ",", " ", "@">>,
+                  <<"jmp", " ", "@">>, <<"call", " ", "[", "@", "]">>, <<"setc", " ", "@">>, <<"cmovne", " ", "rax", ",", " ", "@">> }
+BadRegs2 == BadRegs \cup {"rcz", "rbxx", "rdy", "ebxx", "r9q", "r12e", "xmn1", "xmmm1", "xmm1a", "ymn2", "ymm2z", "mmm1", "mmx1", "cll", "alx", "sill", "r8bb"}
+Fill(t, b) == [k \in 1..Len(t) |-> IF t[k] = "@" THEN b ELSE t[k]]
+C10_Templ(zz) == { Raw("misspelt-register", Fill(t, b)) : t \in RegTemplates, b \in BadRegs2 }
 BadMn == {"foo", "addd", "mo", "movv", "ad", "xorr", "jmpp", "nop12", "nop0", "vpaddz", "leaa", "pushq", "a", "zzz", "cmovxx", "setzz"}
 C10_Mn(zz) == { Raw("unknown-mnemonic", <<b, " ", "rax", ",", " ", "rcx">>) : b \in BadMn }
          \cup { Raw("unknown-mnemonic", <<b>>) : b \in BadMn } \cup { Raw("unknown-mnemonic", <<b, " ", "rax">>) : b \in BadMn }
@@ -299,7 +318,7 @@ C10_Bytes(zz) == { Raw("non-ascii-byte", InsTok(t, k, b)) : t \in BaseLines \ {<
             \cup { Raw("non-ascii-byte", InsTok(t, Len(t), b)) : t \in BaseLines, b \in HiBytes }
             \cup { Raw("non-ascii-byte", InsTok(t, Len(t) - 1, b)) : t \in BaseLines, b \in HiBytes }
             \cup { Raw("non-ascii-byte", InsTok(t, Len(t), b) \o <<" ", ";", " ", "comment">>) : t \in BaseLines, b \in HiBytes }
-C10_Lex(zz) == C10_Regs(0) \cup C10_Mn(0) \cup C10_Mem(0) \cup C10_Empty(0) \cup C10_Bytes(0)
+C10_Lex(zz) == C10_Regs(0) \cup C10_Templ(0) \cup C10_Mn(0) \cup C10_Mem(0) \cup C10_Empty(0) \cup C10_Bytes(0)
 
 (* ================================ C11 =================================== *)
 SpIdxShapes == { Mem("", 0, a, b, 4, 0, "is", d) : a \in {64, 32}, b \in {0, 5, 9, 12, 13},
